@@ -553,6 +553,21 @@ def encoded(ctx, rr):
                         rr.fail(ctx.finding('R-ENCODED', u, a, '%s registers a creation rule under the raw request value `%s`: the table is looked up with the byte prefixes read back from '
                                             'the trie, so a rule given as text is never found again (KeyError when a page below it is added)' % (u.qual, sorted(raw)[0]),
                                             stmt='%s: raw rule key' % u.qual))
+    # __encode itself: bytes come back unchanged, text is encoded - nothing else is done to the LRU (no strip, lower, normalisation)
+    enc = P.method('Traph', '__encode')
+    prm = enc.call_params[0] if enc.call_params else None
+    badr = []
+    for r_ in P.own(enc, ast.Return):
+        v_ = r_.value
+        same = isinstance(v_, ast.Name) and v_.id == prm
+        encd = isinstance(v_, ast.Call) and isinstance(v_.func, ast.Attribute) and v_.func.attr == 'encode' and isinstance(v_.func.value, ast.Name) and v_.func.value.id == prm
+        if not (same or encd):
+            badr.append(r_)
+    rebinds = [a for a in P.own(enc, (ast.Assign, ast.AugAssign)) if prm in names_in_target(a.targets[0] if isinstance(a, ast.Assign) else a.target)]
+    rr.ob(ctx.where(enc), '__encode returns its argument itself (bytes) or its argument encoded (text), nothing else', ok=not badr and not rebinds)
+    for x in (badr + rebinds)[:1]:
+        rr.fail(ctx.finding('R-ENCODED', enc, x, 'Traph.__encode alters the LRU (`%s`): two different submitted LRUs can be stored as one, and the LRU read back is not the LRU submitted'
+                            % ast.unparse(x)[:50], stmt='__encode identity'))
     rr.info['comparisons_checked'] = ncmp
     rr.info['rule_keys_checked'] = nkeys
     rr.require(nkeys, 1, 'registrations in the creation-rule table')
@@ -692,6 +707,14 @@ def degree_flags(ctx, rr):
         if not every:
             rr.fail(ctx.finding('R-DEGREE-FLAGS', u, u.node, '%s has an answering path that does not consult get_page_links(%s)' % (name, want),
                                 stmt='%s: path without get_page_links' % name))
+        # the degree counts the rows of that answer (one per link end and direction): nothing is merged or de-duplicated on the way
+        dedupe = [c for c in P.own(u, ast.Call) if isinstance(c.func, ast.Name) and c.func.id in ('set', 'frozenset', 'dict')
+                  and any(gpl in P.targets(x) for x in ast.walk(c) if isinstance(x, ast.Call))]
+        dedupe += [x for x in ast.walk(u.node) if isinstance(x, (ast.SetComp, ast.DictComp)) and any(gpl in P.targets(y) for y in ast.walk(x) if isinstance(y, ast.Call))]
+        rr.ob(ctx.where(u), '%s counts every row of the get_page_links answer' % name, ok=not dedupe)
+        for c in dedupe[:1]:
+            rr.fail(ctx.finding('R-DEGREE-FLAGS', u, c, '%s de-duplicates the rows of get_page_links before counting them (`%s`): a neighbour linked in both directions, or twice, counts '
+                                'once, so degree != indegree + outdegree (+ internal)' % (name, ast.unparse(c)[:50]), stmt='%s: rows merged' % name))
 
 
 # ------------------------------------------------------------------------------------------------ R-PRIMITIVES
@@ -742,6 +765,18 @@ def primitives(ctx, rr):
         for a in own[:1]:
             rr.fail(ctx.finding('R-PRIMITIVES', u, a, '%s.refresh changes the node after re-reading it (`%s`): part of the stale copy is merged back into the fresh block, so a flag or '
                                 'pointer another request changed meanwhile is restored to its old value at the next write' % (cls, ast.unparse(a)[:50]), stmt='%s.refresh merges' % cls))
+    # <node>.read(block) reads that block: the first storage read of the method is addressed with the parameter itself
+    for cls in ('LRUTrieNode', 'LinkStoreNode'):
+        u = P.method(cls, 'read')
+        bp = u.call_params[0] if u.call_params else None
+        sreads = sorted([c for c in P.own(u, ast.Call) if any(t.name == 'read' and t.cls in STORAGES for t in P.targets(c))], key=lambda c: (c.lineno, c.col_offset))
+        okb = bool(sreads) and len(sreads[0].args) + len(sreads[0].keywords) == 1 and \
+            isinstance((sreads[0].args + [k.value for k in sreads[0].keywords])[0], ast.Name) and (sreads[0].args + [k.value for k in sreads[0].keywords])[0].id == bp
+        rebound = any(bp in names_in_target(t) for a in P.own(u, ast.Assign) for t in a.targets if a.lineno < (sreads[0].lineno if sreads else 0))
+        rr.ob(ctx.where(u), '%s.read(%s) addresses the storage with that block' % (cls, bp), ok=okb and not rebound)
+        if not (okb and not rebound):
+            rr.fail(ctx.finding('R-PRIMITIVES', u, sreads[0] if sreads else u.node, '%s.read does not read the block it was given (`%s`): it relies on where the storage cursor happens to '
+                                'be, which differs between back-ends and moves with every write' % (cls, ast.unparse(sreads[0])[:50] if sreads else 'no storage read'), stmt='%s.read address' % cls))
     rr.require(n, 8, 'persistence primitives')
 
 
